@@ -5,10 +5,10 @@ import gen_docs
 
 ID = "C05"
 LEVEL = "other"
-GEN = ["RxGen", "UnicodeGen", "InlineGen", "BlockGen", "UtilGen", "NormalizeGen"]
+GEN = ["RxGen", "UnicodeGen", "InlineGen", "BlockGen", "UtilGen", "NormalizeGen", "TableGen"]
 COQ = ["Props/C05.vo"]
 EXPLANATION = (
-    "PARTIAL proof + oracle. Proved on the block parser model (coq/Model/Block.v, tied by skeletons with constants, BlockGen and the token-tree correspondence run of this check), for every text: the children of a list are list items, list items occur nowhere else, and the children of quotes and list items are again well-formed block tokens at every depth (C05_block_tree_is_well_typed; lifted through the inline pass to the whole AST of the document model, with heading levels 1-6, as C05_document_ast_is_well_typed; quote/list nesting never exceeds max_nested_level (regenerated: 6) in the block tree and in the whole AST (C05_nesting_never_exceeds_the_maximum, C05_document_nesting_never_exceeds_the_maximum - the statement was false, of model and code alike, before fix 890925f: the proof attempt found the unbounded staircase of lone '-' lines); an invariant carried through every handler and loop, no assumption on the patterns); and every heading anywhere in the tree has a level between 1 and 6 (C05_heading_levels_are_1_to_6: the ATX level is the length of capture group 1 of a match of an ATX rule, and two analyses proved sound - a group's capture spans within given bounds, a group always participates - are evaluated on the regenerated ATX patterns, including the list-item scanner's variants). The token grammar (block vs inline position, raw xor children, no "
+    "PARTIAL proof + oracle. Proved on the block parser model (coq/Model/Block.v, tied by skeletons with constants, BlockGen and the token-tree correspondence run of this check), for every text: the children of a list are list items, list items occur nowhere else, and the children of quotes and list items are again well-formed block tokens at every depth (C05_block_tree_is_well_typed; lifted through the inline pass to the whole AST of the document model, with heading levels 1-6, as C05_document_ast_is_well_typed; quote/list nesting never exceeds max_nested_level (regenerated: 6) in the block tree and in the whole AST (C05_nesting_never_exceeds_the_maximum, C05_document_nesting_never_exceeds_the_maximum - the statement was false, of model and code alike, before fix 890925f: the proof attempt found the unbounded staircase of lone '-' lines); every table row has as many cells as the header, each with its column's alignment, head flags as documented - on the model of the table plugin (coq/Model/Table.v: parse_table, parse_nptable, _process_thead, _process_row with Pattern.split and str.splitlines modelled; tied by skeletons with constants - TableGen - the regenerated patterns and a function-level correspondence run) (C05_table_rows_match_the_header); an invariant carried through every handler and loop, no assumption on the patterns); and every heading anywhere in the tree has a level between 1 and 6 (C05_heading_levels_are_1_to_6: the ATX level is the length of capture group 1 of a match of an ATX rule, and two analyses proved sound - a group's capture spans within given bounds, a group always participates - are evaluated on the regenerated ATX patterns, including the list-item scanner's variants). The token grammar (block vs inline position, raw xor children, no "
     "left-over 'text', heading levels 1-6, list/list_item typing with integer start, link/image url, table arity and "
     "alignment, nesting bound, JSON-serialisability) is checked by an independent Python validator on the token lists "
     "produced with renderer=None for generated documents under core, every plugin and both directive styles. Coq part "
@@ -208,7 +208,12 @@ def check_doc(name, md, doc, fails):
 
 def correspondence(ctx):
     import corr_block
-    return corr_block.run(ctx, ctx.n(2000, 40000))
+    import corr_table
+    a = corr_block.run(ctx, ctx.n(2000, 40000))
+    b = corr_table.run(ctx, ctx.n(3000, 60000))
+    return {"evaluations": a["evaluations"] + b["evaluations"], "disagreements": (a["disagreements"] + b["disagreements"])[:20],
+            "parts": {"block parser model (token trees)": a["evaluations"], "table plugin model (parse_table / parse_nptable on table candidates)": b["evaluations"]},
+            "histogram": b.get("histogram"), "samples": a.get("samples", []) + b.get("samples", [])}
 
 
 def oracle(ctx, extra):
